@@ -19,7 +19,7 @@ func init() { register("C14", func() core.Check { return &c14{} }) }
 
 func (*c14) Level() string { return "exploration" }
 func (*c14) Rule() string {
-	return "case = one hostile scenario (random bytes; byte/token mutations and truncations of valid journals; semantic hostiles: inverted accrual windows, dates 0001-01-01 / 9999-12-31 / 2020-02-30 / 2020-13-45, 400-digit numbers, zero and negative prices, 10^4 bookings; include graphs: self-include, 2- and 3-cycles, diamonds, missing file, directory, dangling symlink, unreadable file under a dropped uid, 200-deep chain, one bad leaf in a 40-file tree; flag hostiles: absent optional flags, inverted windows, --last in {-5,0,10^9}, invalid regexes, -m garbage, unknown -v, --digits in {-3,40}; empty journal; nonexistent file) x every journal-processing command (check, check --write, balance, print, format, infer, transcode, portfolio weights, portfolio returns); oracle = process-outcome monitor: exit in {0,1}, no panic / fatal error / signal, watchdog 30 s (reproduced 3x = hang, else inconclusive), RSS <= 1 GB under a 4 GB address-space limit, stderr non-empty on failure, stdout empty on failure of balance / print / transcode / infer / check --write, and failure whenever a bad file is planted in the include graph; non-trivial = run that reached a failure path (exit 1) or parsed >= 1 directive; distinct = scenario kind + command + outcome class + input hash"
+	return "case = one hostile scenario (random bytes; byte/token mutations and truncations of valid journals; semantic hostiles: inverted accrual windows, dates 0001-01-01 / 9999-12-31 / 2020-02-30 / 2020-13-45, 400-digit numbers, zero and negative prices, 10^4 bookings; include graphs: self-include, 2- and 3-cycles, diamonds, missing file, directory, dangling symlink, unreadable file under a dropped uid, 200-deep chain, one bad leaf in a 40-file tree; flag hostiles: absent optional flags, inverted windows, --last in {-5,0,10^9}, invalid regexes, -m garbage, unknown -v, --digits in {-3,40}; empty journal; nonexistent file) x every journal-processing command (check, check --write, balance, print, format, infer, transcode, portfolio weights, portfolio returns); oracle = process-outcome monitor: exit in {0,1}, no panic / fatal error / signal, watchdog 20 s (reproduced 3x = hang, else inconclusive), RSS <= 1 GB under a 4 GB address-space limit (a death at the limit with less than 512 MB resident is inconclusive: virtual address space is not memory), stderr non-empty on failure, stdout empty on failure of balance / print / transcode / infer / check --write, and failure whenever a bad file is planted in the include graph; non-trivial = run that reached a failure path (exit 1) or parsed >= 1 directive; distinct = scenario kind + command + outcome class + input hash"
 }
 
 func (k *c14) Setup(c *core.Ctx) (int, error) { return c.N(700, 20000), nil }
@@ -327,6 +327,12 @@ func c14Commands(r *rand.Rand) []c14Cmd {
 }
 
 func (k *c14) RunCase(c *core.Ctx, i int) {
+	if c.Counter("confirmed_hangs") >= 6 {
+		// the verdict is already "violated"; every further hang costs a minute of watchdog time
+		c.NotJudged(1)
+		c.Count("cases_skipped_after_repeated_hangs", 1)
+		return
+	}
 	sc := k.scenario(c, i)
 	dir := c.CaseDir(i)
 	defer func() {
@@ -369,7 +375,7 @@ func (k *c14) RunCase(c *core.Ctx, i int) {
 			}
 		}
 		args = append(args, target)
-		ex := core.Cmd{Argv: append([]string{c.Knut}, args...), Dir: dir, Timeout: 30 * time.Second, ASLimit: 4 << 30, Fsize: -1, UID: sc.uid}
+		ex := core.Cmd{Argv: append([]string{c.Knut}, args...), Dir: dir, Timeout: 20 * time.Second, ASLimit: 4 << 30, Fsize: -1, UID: sc.uid}
 		res := core.Exec(ex)
 		c.Eval(1)
 		input := sc.files[sc.main]
@@ -392,7 +398,13 @@ func (k *c14) RunCase(c *core.Ctx, i int) {
 				c.Inconclusive(i, fmt.Sprintf("%s %s: watchdog fired %d of 3 times", sc.kind, cmd.key, hangs))
 				continue
 			}
-			why, key = "the command does not terminate within 30 s (3 of 3 attempts)", "hang"
+			why, key = "the command does not terminate within 20 s (3 of 3 attempts)", "hang"
+			c.Count("confirmed_hangs", 1)
+		case res.Class == "panic" && (strings.Contains(string(res.Stderr), "out of memory") || strings.Contains(string(res.Stderr), "cannot allocate") || strings.Contains(string(res.Stderr), "failed to create new OS thread")) && res.MaxRSSKB < 512<<10:
+			// killed by the address-space limit while using little memory: the limit counts
+			// reserved virtual address space (thread stacks, arenas), not memory in use
+			c.Inconclusive(i, fmt.Sprintf("%s %s: address-space limit hit at %d MB resident", sc.kind, cmd.key, res.MaxRSSKB>>10))
+			continue
 		case res.Class == "panic":
 			why, key = "the command panics / dies with a runtime error: "+core.Trunc(firstLines(string(res.Stderr), 3), 300), "panic"
 			if strings.Contains(string(res.Stderr), "out of memory") || strings.Contains(string(res.Stderr), "cannot allocate") {
@@ -422,6 +434,11 @@ func (k *c14) RunCase(c *core.Ctx, i int) {
 				Why:   fmt.Sprintf("scenario %q, `knut %s`: %s", sc.kind, strings.Join(args, " "), why),
 				Files: sc.files, Cmd: knutCmd(c, nil, args...),
 				Extra: map[string]string{"stderr.txt": core.Trunc(string(res.Stderr), 20000), "stdout.txt": core.Trunc(string(res.Stdout), 20000)}})
+			if key == "hang" || key == "memory" {
+				// the remaining commands load the same journal; do not spend minutes re-finding it
+				c.Count("cases_cut_short_after_hang_or_memory", 1)
+				return
+			}
 			continue
 		}
 		c.Observe("outcomes", c14KindKey(sc.kind)+":"+cmd.key+":"+res.Class)
